@@ -554,15 +554,25 @@ def judge_value(spec, rec):
 MASK_TREE = ['^', C(2), ['+', N, C(14)]]
 
 
+EO_ORDERS = [(0, 1, 2), (1, 2, 0), (2, 0, 1), (0, 2, 1), (2, 1, 0), (1, 0, 2)]
+
+
 def items_ranges(tier):
-    for eo in (0, 1, 2):
-        for lo in range(-12, 13):
-            for hi in range(-12, 13):
-                for role in ('author', 'student'):
-                    yield {'lo': lo, 'hi': hi, 'eo': eo, 'role': role}
+    # one item = one pair of limits graded by THREE graders that differ in even_odd only, one after the other in one
+    # process (same summand text, limits and cut-off: nothing but the parity option distinguishes them - a seeded change
+    # remembered sums of variable-free problems per class, keyed without the parity option)
+    for lo in range(-12, 13):
+        for hi in range(-12, 13):
+            for role in ('author', 'student'):
+                yield {'lo': lo, 'hi': hi, 'eos': list(EO_ORDERS[(lo + 5 * hi + (role == 'author')) % 6]), 'role': role}
 
 
 def judge_ranges(spec, rec):
+    if 'eos' in spec:
+        out = None
+        for eo in spec['eos']:
+            out = judge_ranges({'lo': spec['lo'], 'hi': spec['hi'], 'role': spec['role'], 'eo': eo}, rec)
+        return out
     lo, hi, eo = spec['lo'], spec['hi'], spec['eo']
     idx = term_indices(lo, hi, eo, 1000)
     mask = sum(2 ** (n + 14) for n in idx)
@@ -570,10 +580,11 @@ def judge_ranges(spec, rec):
     swept = {'lo': [lo, str(lo)], 'hi': [hi, str(hi)], 'tree': MASK_TREE, 'tvar': 'n', 'var': 'n'}
     const = {'lo': [t0, str(t0)], 'hi': [t0, str(t0)], 'tree': C(mask), 'tvar': 'n', 'var': 'n'}
     a, s = (swept, const) if spec['role'] == 'author' else (const, swept)
-    full = {'seed': 0, 'eo': eo, 'a': a, 's': s, 'vars': {}, 'samples': 1, 'tol': 0.25, 'pos': list(FIELDS)}
+    full = {'seed': 0, 'eo': eo, 'a': a, 's': s, 'vars': {}, 'samples': 1, 'tol': 0.25, 'pos': list(FIELDS),
+            'no_companion': True}
     # the cutoff for INFINITE limits must not touch finite ones: two thirds of the grid run with a cutoff that is
     # smaller than most of the finite limits (a seeded change clipped finite limits to the cutoff)
-    iv = (None, 5, 7.0)[(lo + 2 * hi + eo) % 3]
+    iv = (None, 5, 7.0)[(lo + 2 * hi) % 3]
     if iv is not None:
         full['infty_val'] = iv
         rec.cls('range/cutoff-below-finite-limits')
